@@ -39,7 +39,10 @@ TRUSTED = ['sklearn fitting (the fitted arrays are input data); sklearn `predict
 CHUNK = 60
 REQUESTS_NEED_IMPL = True
 
-CONSTS = [2.0, -3.0, 0.5, 0.09375, 7.0]      # 0.09375 = 3/32 stands for "0.1" on the dyadic grid
+# 0.09375 = 3/32 stands for "0.1" on the dyadic grid; 1 (int), 1.0 and -1.0 are the neutral / sign constants, where a
+# "nothing to do" shortcut could hand back the operand itself instead of a copy
+CONSTS = [2.0, -3.0, 0.5, 0.09375, 7.0, 1, 1.0, -1.0]
+K1, K2 = 2.5, 3.0      # in-place factors applied to the product / quotient afterwards (2.5 = 5/2 is dyadic)
 GRIDS = ([0, 1], [0, 1, 2, 3], [0, 0.5, 1, 1.5, 2, 2.5], [-2, -1, 0, 1, 2], [0, 0.25, 0.5, 4, 8])
 YS = ([0, 1], [0, 1, 2, 3, 4, 6, 8, -4], [0, 2, 4, 8, 16], [-1, 0, 1], [0, 3, 6, 12, 24, -12])
 DEPTHS = (1, 2, 3, None)
@@ -249,13 +252,33 @@ def impl(c):
     out['decisions'] = dec0
     scaled = []
     for cst in CONSTS:
-        s = dict(c=cst)
+        s = dict(c=float(cst), ctype=type(cst).__name__)
         try:
+            # out of place, then a two-step in-place history on the RESULT; the ORIGINAL is re-examined after every step
             P = D * cst
             s['mul'] = [float(v) for v in P.predict(K)]
+            fresh = [P is not D, P.lattice is not D.lattice, P._decisions is not D._decisions,
+                     P.lattice._generators_dict is not D.lattice._generators_dict]
+            orig = [_canon_decisions(D) == dec0]
+            P *= K1
+            s['mul_imul'] = [float(v) for v in P.predict(K)]
+            orig.append(_canon_decisions(D) == dec0)
+            P /= K2
+            s['mul_imul_idiv'] = [float(v) for v in P.predict(K)]
+            orig.append(_canon_decisions(D) == dec0)
             Q = D / cst
             s['div'] = [float(v) for v in Q.predict(K)]
-            s['fresh'] = bool(P is not D and Q is not D and P.lattice is not D.lattice and P._decisions is not D._decisions)
+            fresh += [Q is not D, Q.lattice is not D.lattice, Q._decisions is not D._decisions, Q is not P]
+            orig.append(_canon_decisions(D) == dec0)
+            Q /= K2
+            s['div_idiv'] = [float(v) for v in Q.predict(K)]
+            orig.append(_canon_decisions(D) == dec0)
+            Q *= K1
+            s['div_idiv_imul'] = [float(v) for v in Q.predict(K)]
+            orig.append(_canon_decisions(D) == dec0)
+            s['fresh'] = bool(all(fresh))
+            s['orig_decisions_kept'] = bool(all(orig))
+            s['orig_pred'] = [float(v) for v in D.predict(K)]
         except Exception as e:
             s['err'] = type(e).__name__
         scaled.append(s)
@@ -280,7 +303,7 @@ def requests(c, io):
     return [dict(op='C20.run', left=a['left'], right=a['right'], feature=a['feature'],
                  threshold=[frac(v) for v in a['threshold']], value=[frac(v) for v in a['value']],
                  X=[[frac(v) for v in r] for r in c['X']], m=len(c['X'][0]), eps=frac(io['eps']),
-                 consts=[frac(v) for v in CONSTS], recs=recs)]
+                 consts=[frac(v) for v in CONSTS], k1=frac(K1), k2=frac(K2), recs=recs)]
 
 
 def close(a, b, tol=1e-9):
@@ -349,12 +372,20 @@ def judge(c, io, rep):
     for s in io['scaled']:
         if 'err' in s:
             return bad('property', f'scaling by {s["c"]} raised {s["err"]}')
-        if not closev(s['mul'], [s['c'] * v for v in io['pred']]):
-            return bad('property', f'(DL*{s["c"]}).predict = {s["mul"]}, expected {s["c"]} * {io["pred"]}')
-        if not closev(s['div'], [v / s['c'] for v in io['pred']]):
-            return bad('property', f'(DL/{s["c"]}).predict = {s["div"]}, expected {io["pred"]} / {s["c"]}')
+        c_ = s['c']
+        want = {'mul': [c_ * v for v in io['pred']], 'div': [v / c_ for v in io['pred']],
+                'mul_imul': [c_ * K1 * v for v in io['pred']], 'mul_imul_idiv': [c_ * K1 / K2 * v for v in io['pred']],
+                'div_idiv': [v / c_ / K2 for v in io['pred']], 'div_idiv_imul': [v / c_ / K2 * K1 for v in io['pred']]}
+        for k_, w_ in want.items():
+            if not closev(s[k_], w_):
+                return bad('property', f'scaling history {k_} with c={c_!r} ({s["ctype"]}), k1={K1}, k2={K2}: predicts '
+                                       f'{s[k_]}, expected {w_}')
         if not s['fresh']:
-            return bad('property', f'DL*{s["c"]} or DL/{s["c"]} shares state with the original')
+            return bad('property', f'DL*{c_!r} or DL/{c_!r} ({s["ctype"]}) shares state with the original (same object, '
+                                   f'lattice, decisions or generator dictionary)')
+        if not s['orig_decisions_kept'] or s['orig_pred'] != io['pred']:
+            return bad('property', f'the original changed after p = DL*{c_!r} ({s["ctype"]}); p *= {K1}; p /= {K2} / '
+                                   f'q = DL/{c_!r}; q /= {K2}; q *= {K1}: original now predicts {s["orig_pred"]}, before {io["pred"]}')
     if io['decisions_after'] != io['decisions'] or io['pred_after'] != io['pred']:
         return bad('property', 'the original decision lattice changed after * and /')
     # ---- Lean checker on the implementation's records ----------------------------------------------------------------
@@ -402,8 +433,9 @@ def judge(c, io, rep):
             for a, b in zip(mr, io['recs'])):
         return bad('correspondence', f'generator records differ: impl {io["recs"]} model {mr}')
     for s, ms in zip(io['scaled'], r['scaled']):
-        if not closev(s['mul'], [float(Q(p)) for p in ms['mul']['ok']]) or not closev(s['div'], [float(Q(p)) for p in ms['div']['ok']]):
-            return bad('correspondence', f'scaled predictions differ for c={s["c"]}')
+        for k_ in ('mul', 'div', 'mul_imul', 'mul_imul_idiv', 'div_idiv', 'div_idiv_imul'):
+            if 'ok' not in ms[k_] or not closev(s[k_], [float(Q(p)) for p in ms[k_]['ok']]):
+                return bad('correspondence', f'scaled predictions ({k_}) differ for c={s["c"]}: impl {s[k_]} model {ms[k_]}')
     return dict(ok=True)
 
 
@@ -462,7 +494,7 @@ def signature(c, io, rep, v):
         return f'C20:malformed:{c["mut"]}'
     if 'raised' in d and 'err' in io:
         return 'C20:exc:' + io['err']
-    for tag, word in (('pred', 'tree.predict'), ('scale', ').predict ='), ('pure', 'changed after'), ('pure', 'shares state'),
+    for tag, word in (('pred', 'tree.predict'), ('scale', 'scaling history'), ('pure', 'original changed'), ('pure', 'changed after'), ('pure', 'shares state'),
                       ('recs', 'generator records'), ('lattice', 'lattice differs'), ('decisions', 'decisions differ'),
                       ('descent', 'standard descent')):
         if word in d:
